@@ -31,6 +31,39 @@ CHECKS = {
             "8-bit dictionary keys are excluded: concat may legitimately fail with a key-overflow error",
         ],
     },
+    "C18": {
+        "crate": "checks",
+        "bin": "c18_iofault",
+        "level": "fault_enumeration",
+        "max_skip_fraction": 0.10,
+        "rule": "one run = one generated workload (schema, 1-3 batches, writer/reader options) for one format; the fault-free write+read is the reference; then EVERY sink call k "
+                "(write and flush) is failed in 6 variants (one-shot/persistent x drop/into_inner x Err/Ok(0)), EVERY source call k (read, seek, fill_buf, get_read, get_bytes) is failed "
+                "one-shot and persistent, EVERY prefix length 0..len of the produced file (<= 8 KiB; larger: write-call edges +-2 and a stride) is read back, the file left by each "
+                "persistently failing writer is read back, and one tape-driven benign part (short reads/writes, bounded Interrupted) is run; evaluations = workloads, "
+                "executions_of_real_code = writer or reader executions; a run is non-trivial when its reference succeeded; distinct = distinct (format, sink calls, file length)",
+        "required_probes": ["probe.benign_write_ok", "probe.benign_read_ok"],
+        "components": {
+            "real": ["arrow_ipc::writer::{FileWriter, StreamWriter} (plain and BufWriter-wrapped), arrow_ipc::reader::{FileReader, StreamReader} (plain and buffered)",
+                     "parquet::arrow::ArrowWriter + SerializedFileWriter + TrackedWrite, ParquetRecordBatchReaderBuilder / ParquetMetaDataReader / SerializedFileReader over a ChunkReader",
+                     "arrow_avro writer (OCF and single-object encoding), arrow_avro OCF Reader", "arrow_csv::{Writer, Reader}", "arrow_json::{LineDelimitedWriter, ArrayWriter, Reader}",
+                     "the codecs these call (lz4, zstd, snappy, gzip, brotli, bzip2, xz, deflate)"],
+            "stub": ["every sink (SimSink: Write), source (SimSource: Read+Seek, ChunkedBufRead: BufRead) and file (SimFile: ChunkReader)"],
+            "not_run": ["AsyncArrowWriter, ParquetRecordBatchStream, PageStore spill faults, object_store adapters, SpawnedReader, Avro SOE decoder (no Read-based reader)"],
+        },
+        "level_text": "per generated workload, exhaustive enumeration of the fault position (every sink call, every source call, every truncation length of small files) with seeded "
+                      "sampling of workloads, options and benign-fault schedules; oracle: error reported, no panic/hang, accepted bytes are a prefix of the fault-free output, rows are a prefix of the fault-free rows",
+        "design_ref": "DESIGN.md section 4 (C18)",
+        "level_note": "sync Read/Write/Seek/BufRead/ChunkReader seams only (async writer/reader paths and PageStore faults are not exercised); workloads are sampled, fault positions are enumerated; "
+                      "CSV truncation is not checked (a cut line is a valid shorter line); trusted: in-tree simulator, row extraction, ArrayData::validate_full; "
+                      "runs whose fault-free reference fails are skipped and counted (no fault was injected, so they say nothing about C18)",
+        "technique": "deterministic simulation with fault injection: instrumented sink/source, fault at call k for all k, truncation at every length, tape-driven short transfers and EINTR, tape replay + shrinking",
+        "assumptions": TRUSTED + [
+            "the fault-free read of the fault-free write is the truth for rows (write->read equality with the generated values is C05/C04/C17, not C18)",
+            "ArrayData::validate_full is trusted as the validity oracle for returned batches",
+            "an Interrupted error may be retried or surfaced; a clean Err under benign faults is not a C18 violation",
+            "Avro OCF output is compared after rewriting the per-writer random sync marker to a fixed one",
+        ],
+    },
 }
 
 
